@@ -319,4 +319,237 @@ def initOutputs (outs : List (String × FieldKind)) (nvar : Nat) : List (Emit.Ar
     | .optional => Emit.Arg.opt (some f.1)
     | .variadic => Emit.Arg.variadic ((List.range nvar).map fun i => f.1 ++ "_" ++ toString i)
 
+/-! ## the call with every *spelling* of a keyword argument, error branch included
+
+`conforming_call` above speaks about well-formed calls only. The generated constructors also decide
+what happens for the other spellings of an attribute argument — left out, `None`, a value that is not
+of the attribute's kind — and the property's "requiredness and default values" is about exactly that:
+`AttrX(value, name=…)` validates (`Attr._validate`, `AttrDtype._validate` → `dtype_to_tensor_type`,
+`_AttrIterable.__init__` → `tuple(value)`; all leave with `TypeError`), `AttrX.maybe(None, …)` is
+`None` (attribute absent), `AttrX(None, …)` raises — it never invents a value. -/
+
+/-- How the caller spells one keyword argument. `bad` = a value that is not of the attribute's kind. -/
+inductive Spell where
+  | omitted | none | ok (v : Val) | bad
+  deriving Repr, DecidableEq
+
+/-- What the parameter is bound to when the function body starts: the spelled value, else the
+    signature default. `Option.none` = Python's own `TypeError` (required keyword-only argument
+    missing). -/
+def bound (ps : List Param) (n : String) : Spell → Option Spell
+  | .omitted => match findParam ps n with
+    | some p => match p.default with
+      | some Val.none => some Spell.none
+      | some v => some (Spell.ok v)
+      | Option.none => Option.none
+    | Option.none => Option.none
+  | s => some s
+
+/-- `AttrX(value, name=…)` (`w.maybe = false`) / `AttrX.maybe(value, name=…)`.
+    Outer `Option.none` = the constructor leaves with `TypeError`. -/
+def mkAttr (w : AttrWire) : Spell → Option (Option (String × Val))
+  | .ok v => some (some (w.onnxName, encode w.kind v))
+  | .none => if w.maybe then some Option.none else Option.none
+  | .bad => Option.none
+  | .omitted => Option.none
+
+/-- one keyword of the `Attributes(...)` expression -/
+def callAttrE (ps : List Param) (spelled : String → Spell) (w : AttrWire) :
+    Option (Option (String × Val)) :=
+  match bound ps w.param (spelled w.param) with
+  | some sp => mkAttr w sp
+  | Option.none => Option.none
+
+/-- all results, or `none` as soon as one of them is `none` (an exception leaves the call) -/
+def allSome {γ : Type} : List (Option γ) → Option (List γ)
+  | [] => some []
+  | Option.none :: _ => Option.none
+  | some a :: rest => match allSome rest with
+    | some l => some (a :: l)
+    | Option.none => Option.none
+
+/-- The `Attributes(...)` object of a call with arbitrary spellings; `none` = `TypeError`. -/
+def callAttrsE (c : Ctor) (spelled : String → Spell) : Option (List (Option (String × Val))) :=
+  allSome (c.attrWires.map (callAttrE c.params spelled))
+
+/-- The schema-level reading of a spelling: is the call refused? -/
+def rejects (a : SAttr) : Spell → Bool
+  | .bad => true
+  | .omitted => a.required
+  | .none => a.required || a.default != Val.none
+  | .ok _ => false
+
+/-- The schema-level reading of an accepted spelling: the value given under the schema name, else
+    the schema default if there is one, else nothing. -/
+def acceptedAttr (spelled : String → Spell) (a : SAttr) (w : AttrWire) : Option (String × Val) :=
+  match spelled a.name with
+  | .ok v => some (a.name, encode w.kind v)
+  | _ => if a.default == Val.none then Option.none else some (a.name, a.default)
+
+/-! ## the input side of a call, error branch included
+
+Positional parameters: `X: Var` (required), `X: Optional[Var] = None`, `X: Sequence[Var]` (variadic; a few
+constructors default it to `()`). `Inputs.__post_init__` (`_fields.py`) checks every field against its
+kind and raises `TypeError` otherwise; a missing required positional argument is Python's own
+`TypeError`. -/
+
+/-- How the caller spells one input argument. `bad` = not a `Var` / not an iterable of `Var`s. -/
+inductive InSpell (α : Type) where
+  | omitted | none | var (v : α) | vars (vs : List α) | bad
+  deriving Repr, DecidableEq
+
+/-- what the positional parameter is bound to (`Option.none` = missing required argument) -/
+def boundIn {α : Type} (ps : List Param) (n : String) : InSpell α → Option (InSpell α)
+  | .omitted => match findParam ps n with
+    | some p => match p.default with
+      | some Val.none => some InSpell.none
+      | some _ => some (InSpell.vars [])       -- the `()` default of a variadic parameter
+      | Option.none => Option.none
+    | Option.none => Option.none
+  | s => some s
+
+/-- `Inputs.__post_init__` on one field; `Option.none` = `TypeError`. -/
+def mkInput {α : Type} : FieldKind → InSpell α → Option (Emit.Arg α)
+  | .single, .var v => some (Emit.Arg.single v)
+  | .optional, .var v => some (Emit.Arg.opt (some v))
+  | .optional, .none => some (Emit.Arg.opt Option.none)
+  | .variadic, .vars vs => some (Emit.Arg.variadic vs)
+  | _, _ => Option.none
+
+def callInputE {α : Type} (c : Ctor) (spelled : String → InSpell α) (f : String × FieldKind) :
+    Option (Emit.Arg α) :=
+  match c.inputWires.find? (fun w => w.1 == f.1) with
+  | some w => match boundIn c.params w.2 (spelled w.2) with
+    | some sp => mkInput f.2 sp
+    | Option.none => Option.none
+  | Option.none => Option.none
+
+/-- `Inputs(field=param, …)` for arbitrary spellings; `none` = `TypeError`. -/
+def callInputsE {α : Type} (c : Ctor) (spelled : String → InSpell α) : Option (List (Emit.Arg α)) :=
+  allSome (c.cls.inputs.map (callInputE c spelled))
+
+/-- schema-level reading: is this spelling of a formal input refused? (`hasDefault`: the constructor
+    lets a variadic input be left out, meaning "no inputs") -/
+def rejectsIn {α : Type} (k : FieldKind) (hasDefault : Bool) : InSpell α → Bool
+  | .var _ => k == .variadic
+  | .none => k != .optional
+  | .vars _ => k != .variadic
+  | .omitted => match k with
+    | .single => true
+    | .optional => false
+    | .variadic => !hasDefault
+  | .bad => true
+
+/-- schema-level reading of an accepted spelling -/
+def acceptedIn {α : Type} (k : FieldKind) : InSpell α → Emit.Arg α
+  | .var v => match k with
+    | .single => Emit.Arg.single v
+    | _ => Emit.Arg.opt (some v)
+  | .vars vs => Emit.Arg.variadic vs
+  | _ => match k with
+    | .variadic => Emit.Arg.variadic []
+    | _ => Emit.Arg.opt Option.none
+
+/-- does the constructor give the (variadic) input parameter a default? -/
+def paramHasDefault (ps : List Param) (n : String) : Bool :=
+  match findParam ps n with
+  | some p => p.default.isSome
+  | Option.none => false
+
+/-! ## per-pair slotting obligation (generated: `slots_<m>_<Op>`)
+
+For one shipped (constructor, schema) pair: on *every* presence pattern of its inputs (each optional
+input present / `None`, the variadic one with 0 / 1 / 2 Vars) the constructor-call model followed by
+`Node.to_onnx`'s trimming yields exactly the list an independently written closed form demands — the
+schema's formal inputs in order, cut after the last present one but never below `min_input` —, and the
+number of emitted outputs is the number of declared non-variadic outputs plus the requested variadic
+ones. -/
+
+def presenceCases : List (String × FieldKind) → List (List (String × InSpell String))
+  | [] => [[]]
+  | (n, .single) :: rest => (presenceCases rest).map ((n, InSpell.var n) :: ·)
+  | (n, .optional) :: rest =>
+    (presenceCases rest).flatMap fun r => [(n, InSpell.var n) :: r, (n, InSpell.none) :: r]
+  | (n, .variadic) :: rest =>
+    (presenceCases rest).flatMap fun r =>
+      [(n, InSpell.vars []) :: r, (n, InSpell.vars [n ++ "_0"]) :: r,
+       (n, InSpell.vars [n ++ "_0", n ++ "_1"]) :: r]
+
+def spellOf (l : List (String × InSpell String)) (n : String) : InSpell String :=
+  match l.find? (fun x => x.1 == n) with
+  | some x => x.2
+  | Option.none => InSpell.omitted
+
+/-- the positional name list, straight from the schema's formal inputs -/
+def specNames (fs : List (String × FieldKind)) (sp : String → InSpell String) : List (Option String) :=
+  fs.flatMap fun f => match sp f.1 with
+    | .var v => [some v]
+    | .vars vs => vs.map some
+    | _ => [Option.none]
+
+/-- 1 + index of the last present name (0 if there is none) -/
+def lastPresent (xs : List (Option String)) : Nat :=
+  (xs.foldl (fun (acc : Nat × Nat) x => (acc.1 + 1, if x.isSome then acc.1 + 1 else acc.2)) (0, 0)).2
+
+/-- closed form of "omitted trailing optionals dropped, never below `min_input`" -/
+def specSlots (minN : Nat) (xs : List (Option String)) : List (Option String) :=
+  xs.take (max (min minN xs.length) (lastPresent xs))
+
+def slotOK (e : Entry) : Bool :=
+  (presenceCases e.2.2.inputs).all (fun l =>
+    match callInputsE e.2.1 (spellOf l) with
+    | some ins => Emit.emitSlots e.2.2.minInput ins ==
+        specSlots e.2.2.minInput (specNames e.2.2.inputs (spellOf l))
+    | Option.none => false) &&
+  [0, 2].all (fun nv =>
+    (Emit.emitSlots e.2.2.minOutput (initOutputs e.2.1.cls.outputs nv)).length ==
+      (e.2.2.outputs.filter (fun o => o.2 != .variadic)).length +
+        (if hasVariadic e.2.2.outputs then nv else 0))
+
+/-! ## what of `_attributes.py` / `_utils.dtype_to_tensor_type` `mkAttr` covers (tie G, compared with
+`Generated/AdaptAttrInventory.lean`)
+
+`mkAttr` has one rule for all kinds: `ok v ↦ encode`, `None ↦ absent iff .maybe`, `bad ↦ TypeError`. That is
+sound for the override table below: only `Attr` and `_AttrIterable` define `maybe` (both `None ↦ None`);
+`__init__` is overridden by `AttrTensor` / `_AttrIterable` / `AttrTensors` only (type guard, `tuple(value)`,
+copies — no canonicalisation of `None`); `_validate` by `AttrDtype` (→ `dtype_to_tensor_type`) and `AttrGraph`
+only; every raise site is a `TypeError` (or the abstract `NotImplementedError`s). A class that gains an
+`__init__` / `maybe` / `_validate` of its own is a code path `mkAttr` does not have. -/
+def coveredAttrClasses : List (String × List String × List String × List (String × String) × List String) := [
+  ("Attr", ["ABC", "Generic"], ["__init__", "deref", "maybe", "value", "_validate", "_to_onnx", "_attribute_proto_type", "_to_onnx_deref", "_get_pretty_type_exception"],
+   [], ["_validate: self._get_pretty_type_exception", "_validate: self._get_pretty_type_exception", "_attribute_proto_type: NotImplementedError", "_to_onnx_deref: NotImplementedError"]),
+  ("_Ref", ["Generic"], ["__init__", "copy", "_to_onnx"],
+   [], []),
+  ("AttrFloat32", ["Attr"], ["_to_onnx_deref"],
+   [("_attribute_proto_type", "AttributeProto.FLOAT")], []),
+  ("AttrInt64", ["Attr"], ["_to_onnx_deref"],
+   [("_attribute_proto_type", "AttributeProto.INT")], []),
+  ("AttrString", ["Attr"], ["_to_onnx_deref"],
+   [("_attribute_proto_type", "AttributeProto.STRING")], []),
+  ("AttrTensor", ["Attr"], ["__init__", "_to_onnx_deref"],
+   [("_attribute_proto_type", "AttributeProto.TENSOR")], ["__init__: TypeError"]),
+  ("AttrType", ["Attr"], ["_to_onnx_deref"],
+   [("_attribute_proto_type", "AttributeProto.TYPE_PROTO")], ["_to_onnx_deref: NotImplementedError"]),
+  ("AttrDtype", ["Attr"], ["_validate", "_to_onnx_deref"],
+   [("_attribute_proto_type", "AttributeProto.INT")], []),
+  ("AttrGraph", ["Attr"], ["_validate", "_to_onnx_deref"],
+   [("_attribute_proto_type", "AttributeProto.GRAPH")], ["_validate: TypeError", "_to_onnx_deref: TypeError"]),
+  ("_AttrIterable", ["Attr", "ABC"], ["__init__", "maybe", "_to_onnx_deref"],
+   [], []),
+  ("AttrFloat32s", ["_AttrIterable"], [],
+   [("_attribute_proto_type", "AttributeProto.FLOATS")], []),
+  ("AttrInt64s", ["_AttrIterable"], [],
+   [("_attribute_proto_type", "AttributeProto.INTS")], []),
+  ("AttrStrings", ["_AttrIterable"], [],
+   [("_attribute_proto_type", "AttributeProto.STRINGS")], []),
+  ("AttrTensors", ["_AttrIterable"], ["__init__", "_to_onnx_deref"],
+   [("_attribute_proto_type", "AttributeProto.TENSORS")], []),
+  ("<def _deref>", [], [],
+   [], [])
+]
+
+/-- (kind, guards) of the exits of `dtype_to_tensor_type`: `None`, numpy's `ValueError` for a malformed
+    spec, `object`, and ONNX's unknown-dtype errors all leave as `TypeError`. -/
+def coveredDtypeExits : List (String × List String) := [("raise", ["v0 is None"]), ("raise", ["<except ValueError>"]), ("raise", ["v2 == np.dtype(object)"]), ("return", ["not (v2 == np.dtype(object))", "v2 == np.dtype(str)"]), ("return", ["<try>"]), ("raise", ["<except (KeyError, ValueError)>"])]
+
 end Conform
